@@ -459,6 +459,20 @@ def write_evidence(prop, tier, seed, level, coverage, wall_s, violations, assump
     return path
 
 
+def run_canaries(sim, outdir):
+    """Positive and negative canaries of the seams (see sim/canary_chan.cc)."""
+    d = fresh_dir(os.path.join(outdir, 'canary'))
+    out = os.path.join(d, 'canary.json')
+    r = run_sim(sim, ['chan', 'canary', '--out', out, '--logdir', d], timeout=600)
+    if not os.path.exists(out):
+        raise MachineryFault('canary run produced no result: ' + r.stderr[-1000:])
+    res = load_json(out)
+    if not res.get('all_ok'):
+        bad = [c for c in res['canaries'] if not c['ok']]
+        raise MachineryFault('canary misbehaved: ' + json.dumps(bad))
+    return res['canaries']
+
+
 # ------------------------------------------------------------ determinism ----
 def merge_hashlog(logdir):
     import struct
@@ -676,6 +690,9 @@ def check_chan(prop, tier, seed):
     sims = {}
     for v in variants:
         sims[v], _ = build(v)
+    canaries = {}
+    for v in variants:
+        canaries[v] = run_canaries(sims[v], os.path.join(outdir, 'canary-' + v))
     # Determinism first: nothing is believed before it holds.
     det_mod = 4001 if tier == 'thorough' else 1499
     det_runs = determinism_audit(sims[variants[0]], 'chan', tier, seed,
@@ -742,6 +759,7 @@ def check_chan(prop, tier, seed):
     samples = chan_samples(sims[variants[0]], main, tier, seed, os.path.join(outdir, 'samples'))
     cov = chan_coverage(main, sims[variants[0]], samples, prop)
     cov['determinism_audit_runs'] = det_runs
+    cov['canaries'] = canaries
     cov['builds'] = variants
     if vg_stats is not None:
         cov['valgrind_memcheck_pass'] = vg_stats
